@@ -15,17 +15,17 @@ CHECKS = {
  "C03": ("exploration", "Content-Length bodies around 1024/2048 and up to 70000 B, chunked bodies with generated chunkings (sizes, hex case, leading zeros, extensions), both headers together, upgrade requests (rest of stream), each followed by a pipelined marker, or a Content-Length body cut short by the client closing its sending side; the application reads with generated buffer-size sequences to the first Ok(0) and once more; bytes, end-of-stream position and body_length equal the reference model's", "refinement oracle: bytes read by the application vs the reference framing model"),
  "C04": ("exploration", "responses over status classes (incl. the neighbours of the body-less codes and uniformly drawn 200..599), bodies 0..70000 B around the 8192 chunk size and 32768 threshold, declared/undeclared length, threshold variants, all constructors, piece-wise body readers, answering HEAD/GET, 1.0/1.1, TE variants, through the simulated transport (short writes, small windows) and through the public raw_print into a writer accepting seeded random prefixes; an independent RFC 7230 client parser must recover status and exactly the body, self-delimited, with no body bytes for HEAD/1xx/204/304", "independent client-side parser over the simulated wire and over a short-writing Write seam"),
  "C09": ("exploration", "a body-bearing request (Content-Length 1..140000, thorough 200000, or chunked with generated chunking; optionally expecting; optionally held back by the client until the server has answered) at position 0..2 of a pipeline whose handler consumes a generated prefix (nothing, an empty read, exactly k, to the end) and finishes by respond/drop/raw writer, followed by 1-3 spiced marker requests under generated segmentation, plus mixed-feature conversations; the markers are delivered with exactly the heads sent and answered, nothing else is delivered", "conversation oracle against the reference request model"),
- "C11": ("exploration", "pipelines of 2..8 requests; (A) all bodies absent or <= 1024 B and the application collects all n before answering any, on one thread calling recv, on one thread polling with try_recv around 0-2 unblock calls, or with one blocked thread per request each holding its request for a virtual second; (B) a streamed body is read to its end (or the request answered/dropped unread) and the request kept for 1 virtual second while the successor must already be obtainable; a collector still blocked at quiescence is the violation", "quiescence (deadlock) detection + virtual-time ordering"),
+ "C11": ("exploration", "pipelines of 2..8 requests; (A) all bodies absent or <= 1024 B and the application collects all n before answering any, on one thread calling recv, on one thread polling with try_recv around 0-2 unblock calls, or with one blocked thread per request each holding its request for a virtual second; (B) a streamed body is read to its end (or the request answered/dropped unread, also by a panicking handler) and the request kept for 1 virtual second while the successor must already be obtainable; a collector still blocked at quiescence is the violation", "quiescence (deadlock) detection + virtual-time ordering"),
  "C13": ("fault_enumeration", "fault = segmentation: for each of ~40 corpus conversations every single split point (with and without a virtual pause), one-byte-at-a-time, and random multi-way splits; delivered requests (heads, bodies) and the Date-normalised response stream must equal the unsplit delivery's. The single-cut space of the corpus is enumerated completely; schedules are sampled", "metamorphic comparison with the unsplit run, enumerated cut points"),
  "C14": ("exploration", "hostile heads/bodies (Content-Length 256 MiB..usize::MAX with few bytes sent, chunk sizes to and beyond 16 hex digits, thousands of headers, MiB-long lines, control/non-ASCII bytes, missing/bare-LF line ends, TE lists with NaN/inf/garbage weights, uninterrupted runs of up to 8000 refused-version requests or 2000 ordinary ones on one connection against std-size thread stacks, truncation, connect-and-reset without a byte) delivered whole or byte-wise, crossed with handlers reading none/some/all then respond/drop; no panic outside application code (process-wide hook), no process death (orchestrator), largest single allocation and live-heap growth bounded by the bytes actually sent (counting global allocator that refuses > 1 GiB)", "crash/abort observation + counting allocator seam"),
  "C15": ("fault_enumeration", "fault = the client vanishing: for each corpus conversation every prefix length of the client's byte stream followed by half-close, full close (post-close write budget and error kind seeded) or reset, plus response-side vanishing (client gone before/after m response bytes, or not reading behind a small window); incomplete requests never delivered, complete ones delivered and answered after an orderly close, delivered set a prefix after a reset, respond returns Ok, nobody blocks for ever, no library panic, a fresh connection is served. The (conversation, prefix, kind) space is enumerated completely; schedules are sampled", "crash-point enumeration with the conversation oracle"),
  "C18": ("exploration", "Expect: 100-continue present/absent (any case) x body length {0,5,1024,1025,5000} framed by Content-Length or chunked x programs {answer without reading, as_reader once/three times, partial read, read to EOF; finished by respond, raw writer or drop} x a client that withholds the body until it sees the interim response or not, pipelined before/after ordinary requests or followed by a second expecting request answered on another thread while the first is still busy; exactly one 100 iff the body was asked for, never before it was asked for, before the final response of the same request; a client waiting for 100 while the server waits for the body is a visible two-party deadlock", "wire oracle + write stamps (event sequence) + two-party deadlock detection"),
  "C19": ("exploration", "ONLY the Date clause depends on something the simulator controls (the wall-clock seam: virtual dates 1970..9998, leap days, roll-overs, jumps and sub-second gaps between up to four responses of one thread; Date must be the IMF-fixdate of the virtual instant of the respond call). The remaining clauses (protected names never sent, Content-Length only sets the length, last Content-Type wins, application headers once each in order, one Server/Date unless supplied, constructors from_string/from_data/from_file/empty/new declare the byte length incl. multi-byte UTF-8, with_data at any point of the header sequence; the automatic response for a request dropped unanswered or by a panicking handler carries one Date and one Server too) are evaluated by the same wire oracle on the same runs with seeded header lists; for them the simulation is a vehicle, not the deciding power", "virtual wall-clock seam + wire header oracle"),
- "C01": ("exploration", "pipelines of 2..6 requests answered in every permutation (n<=4 enumerated by run index) by handler threads (answers spread over milliseconds or over seconds of virtual time) under random/PCT/burst schedules with respond/into_writer (also flushed before the first write)/drop/handler panic, identity and chunked bodies to 40000 B, optionally ended by a malformed request whose 400 the connection thread writes itself, short writes and small send windows; the client's byte stream must be the expected messages in request order with no mixing", "wire order/contiguity oracle over the client byte log"),
- "C06": ("exploration", "1..5 pipelined requests (spiced with expectations, chunked bodies, HTTP/1.0 keep-alive, long headers), each finished by respond / raw writer / upgrade / drop / handler panic (also while one thread holds requests of two connections) on any thread in any order, bodies read none/partly/fully, streamed bodies cut short by the client closing its sending side, streamed bodies the client holds back until answered, body sources that fail after their last byte, plus mixed-feature conversations; at quiescence exactly one final response per delivered request with the status and body its action dictates, and no response held up by a dropped predecessor", "per-request response accounting at quiescence"),
+ "C01": ("exploration", "pipelines of 2..6 requests answered in every permutation (n<=4 enumerated by run index) by handler threads (answers spread over milliseconds or over seconds of virtual time) under random/PCT/burst schedules with respond/into_writer (also flushed, or written with a zero-length write, before the first bytes)/drop/handler panic, identity and chunked bodies to 40000 B, optionally ended by a malformed request whose 400 the connection thread writes itself, short writes and small send windows; the client's byte stream must be the expected messages in request order with no mixing", "wire order/contiguity oracle over the client byte log"),
+ "C06": ("exploration", "1..5 pipelined requests (spiced with expectations, chunked bodies, HTTP/1.0 keep-alive, long headers), each finished by respond / raw writer / upgrade (also an upgrade call that itself panics) / drop / handler panic (also while one thread holds requests of two connections) on any thread in any order, bodies read none/partly/fully, streamed bodies cut short by the client closing its sending side, streamed bodies the client holds back until answered, body sources that fail after their last byte, plus mixed-feature conversations; at quiescence exactly one final response per delivered request with the status and body its action dictates, and no response held up by a dropped predecessor", "per-request response accounting at quiescence"),
  "C07": ("exploration", "1-3 connections x 1-4 receiver threads mixing recv/recv_timeout/try_recv/iterator, request arrival instants and 0-3 unblock calls placed around the receivers' deadlines, applications that only poll with try_recv (and must end up with every request), strict and racy virtual time, spurious wake-ups; exactly-once delivery, per-receiver wire order (no gaps for a single receiver), and at every quiescence no complete request left undelivered while a receiver is blocked", "exactly-once + quiescence (lost wake-up) oracle"),
  "C08": ("exploration", "N keep-alive connections (to 12, thorough 40) arriving as bursts, staggered, or 5 s +- eps after an earlier burst (workers retiring), some stalling mid-request; at quiescence, with every connection still open, each connection that sent a complete request has its response", "starvation-at-quiescence oracle with PCT/burst schedules"),
- "C10": ("exploration", "pipelines of 1..4 (spiced) requests with one mutated into each malformed/unsupported class at each position (refused versions with and without bodies, optionally followed directly by a second rejected request; unsupported Expect with an announced body that is withheld; whitespace-only lines; the client's bytes ending 1..4 bytes before the end of the offending head), earlier requests answered after delays (plain responses, expecting requests whose as_reader flushes an interim response, raw writers flushed part-way), plus mixed-feature conversations with one rejected request; outcome (400/417+close, 505+continue, silent close), order, never delivered, and no stall at quiescence", "conversation oracle against the reference request model"),
+ "C10": ("exploration", "pipelines of 1..4 (spiced) requests with one mutated into each malformed/unsupported class at each position (refused versions with and without bodies, optionally followed directly by a second rejected request; unsupported Expect (on HTTP/1.1 and 1.0 requests) with an announced body that is withheld; whitespace-only lines; the client's bytes ending 1..4 bytes before the end of the offending head), earlier requests answered after delays (plain responses, expecting requests whose as_reader flushes an interim response, raw writers flushed part-way), plus mixed-feature conversations with one rejected request; outcome (400/417+close, 505+continue, silent close), order, never delivered, and no stall at quiescence", "conversation oracle against the reference request model"),
  "C12": ("exploration", "version x Connection-header variants at every pipeline position, followed by further requests, client half-closing or not, handlers answering late and out of order, a streamed body the handler never reads and the client holds back until the answer (and, for a connection-ending request, until end-of-stream), plus mixed-feature conversations; nothing served after a connection-ending request, EOF right after the last response, the connection never released with bytes of the last request still unread (a kernel turns that close into a reset), persistence otherwise", "conversation oracle against the reference request model"),
  "C16": ("exploration", "smuggling-prone header syntax (whitespace before/inside the name or before the colon, invalid Content-Length classes) at every pipeline position, early or after up to 300 well-formed fields, with a would-be smuggled request as body and further requests behind; 400 + close, neither offending nor smuggled request delivered", "conversation oracle against the reference request model"),
  "C17": ("exploration", "0..4 unblock calls at generated instants against 1-4 receivers mixing the receive calls and 0-2 connections; released calls never exceed unblock calls, no token or request left queued while a receiver blocks, try_recv takes zero virtual time, empty recv_timeout within [T-1ms, 2T] in strict virtual time (with and without spurious wake-ups)", "token accounting + virtual-clock bounds"),
